@@ -7,7 +7,12 @@ from vf import canon, decomp, gen_ssb, model, render
 from vf.cut import BudgetExceeded, StepBudget, compile_text, decompile_ssbs
 
 BUDGET = 5_000_000
-WS_ROOT = "/tmp/vf-c11-ws"  # scratch workspaces (C12 sets its own root)
+# scratch workspaces of this run: one directory per run (two runs at the same time must not remove each other's files),
+# handed to forked shards and to fresh interpreter processes through the environment
+import os as _os
+
+WS_ROOT = _os.environ.get("VERIF_WS_ROOT") or f"/tmp/vf-ws-{_os.getpid()}"
+_os.environ["VERIF_WS_ROOT"] = WS_ROOT
 
 
 def describe_exc(e: BaseException) -> dict:
